@@ -63,7 +63,8 @@ def make_case(seed, idx, tier):
         "fits_hex": [float(f).hex() for f in fits],
         "ties": ties,
         "rng": rng.randint(0, 2**31 - 1),
-        "k": rng.randint(1, max(1, n - 1)),
+        # boundary values are legal sizes too: k = 0 (k_elites=0: no elitism) and k = n (every parent an elite)
+        "k": 0 if idx % 8 == 5 else (n if idx % 8 == 6 else rng.randint(1, max(1, n - 1))),
         "limit": rng.randint(1, 4),
         "idx": idx,
     }
@@ -154,20 +155,25 @@ def run_decisions(desc):
     k = min(desc["k"], n)
     PA, PB = Population.from_individuals(A), Population.from_individuals(B)
     comp("topk")
+    comp(f"topk.k={'0' if k == 0 else ('n' if k == n else 'between')}")
     ta, tb = PA.topk(k), PB.topk(k)
+    if ta.size != k or tb.size != k:
+        viol("Population.topk(k) does not keep k individuals", k=k, n=n, kept_on_maximisation=int(ta.size), kept_on_minimisation=int(tb.size))
     fa, fb = sorted((-ta.fitnesses).tolist()), sorted(tb.fitnesses.tolist())
     if fa != fb:
         viol("Population.topk keeps different fitness values on (f,max) and (-f,min)", k=k, a=fa[:6], b=fb[:6])
     if fb != sorted(g)[:k]:
         viol("Population.topk does not keep the k best", k=k)
-    cut_tie = k < n and sorted(g)[k - 1] == sorted(g)[k]
+    cut_tie = 0 < k < n and sorted(g)[k - 1] == sorted(g)[k]
     if not cut_tie:
         ga = sorted(map(tuple, ta.genomes.tolist()))
         gb = sorted(map(tuple, tb.genomes.tolist()))
         if ga != gb:
             viol("Population.topk keeps different individuals on (f,max) and (-f,min)", k=k)
     comp("select_new_population")
-    sea = SEA.create(problem=pmin, mutation_std=0.1, k_elites=min(2, n))
+    ke = min(k, n)  # elite count of the (parents' elites + offspring) selection: 0 .. n
+    comp(f"select_new_population.k_elites={'0' if ke == 0 else ('n' if ke == n else 'between')}")
+    sea = SEA.create(problem=pmin, mutation_std=0.1, k_elites=ke)
     off_rng = random.Random(desc["rng"])
     og = [[off_rng.uniform(-5, 5) for _ in range(dim)] for _ in range(n)]
     ofit = [float(sum((v - 0.3) ** 2 for v in row)) for row in og]
@@ -176,6 +182,12 @@ def run_decisions(desc):
     na_, nb_ = sea.select_new_population(PA, OA), sea.select_new_population(PB, OB)
     if sorted((-na_.fitnesses).tolist()) != sorted(nb_.fitnesses.tolist()):
         viol("BaseSEA.select_new_population keeps different fitness values on (f,max) and (-f,min)")
+    want = sorted(ofit + sorted(g)[:ke])[:n]
+    if sorted(nb_.fitnesses.tolist()) != want or sorted((-na_.fitnesses).tolist()) != want:
+        viol(
+            "BaseSEA.select_new_population does not keep the n best of (offspring + the k_elites best parents)",
+            k_elites=ke, n=n, direction_that_differs="maximisation" if sorted(nb_.fitnesses.tolist()) == want else "minimisation (or both)",
+        )
     if nb_.size != n or na_.size != n:
         viol("BaseSEA.select_new_population changes the population size", a=int(na_.size), b=int(nb_.size), n=n)
 
